@@ -113,7 +113,7 @@ func c08(args []string) error {
 			kindSel = 8
 		}
 		if satur {
-			kindSel = 6
+			kindSel = []int{6, 6, 8}[r.Intn(3)] // thread counts, or sequence ranges over the many undefined pairs
 		}
 		switch kindSel {
 		case 0: // column permutation (the internal-gap mode depends on column order by definition)
